@@ -40,6 +40,8 @@ var c10Exprs = []string{
 	"document_index", "file_index", "filename", `{"doc": document_index, "file": file_index}`,
 	// documents that print nothing before documents that print (position-dependent and kind-dependent filters)
 	"select(document_index == 1)", "select(file_index == 1)", `select(kind == "scalar")`, `select(tag == "!!map") | .a`,
+	// several results per document (no separator between the results of one document)
+	`select(tag == "!!map") | (.a, .b)`, `(., .)`,
 }
 
 // c10JSONAlphabet: the same shapes as one JSON value each; a JSON input file is the values one per line (a stream of documents in a non-YAML format)
@@ -576,7 +578,7 @@ func init() {
 	registerLater(func() {
 		fw.Register(&fw.Check{
 			ID: "C10", Level: "model_checking",
-			Rule: "every history of <= F files each with 0..K documents over the document alphabet (maps with/without leading comment or explicit start marker, scalars, sequence; empty files; also as streams of JSON values read with -p json) x 22 document-local expressions (incl. filters that print nothing for some documents, by position and by kind) (incl. in-place updates of a literal owned by the shared parsed tree) x {default, -N}, run by the real binary; " +
+			Rule: "every history of <= F files each with 0..K documents over the document alphabet (maps with/without leading comment or explicit start marker, scalars, sequence; empty files; also as streams of JSON values read with -p json) x 24 document-local expressions (incl. filters that print nothing for some documents, by position and by kind) (incl. in-place updates of a literal owned by the shared parsed tree) x {default, -N}, run by the real binary; " +
 				"oracle: the output is, in order, the solo output of every document (same expression on a one-document file) with exactly one separator line between consecutive printing documents (none required under -N), evaluation stops at the first document that fails on its own, " +
 				"document_index/file_index/filename equal the true position, zero documents = `yq -n`; eval = eval-all on single-document inputs; non-trivial = history with at least two documents",
 			Assumptions: []string{"comment-only and empty *documents* are not generated here (YAML itself does not count them as documents; the identity on such streams is C05's subject); empty files are"},
